@@ -220,8 +220,12 @@ def run_fs(desc):
                             # pathlib folds `x/.` into `x` (and relpath would fold `..`): the path object no longer shows which
                             # segment the pattern matched, so such patterns are judged through glob()/iglob() only
                             return
-                        res = [os.path.relpath(str(p), root) if str(p) != root else '.' for p in
-                               WP.Path(root).glob(text, flags=fl & ~G.MATCHBASE)]
+                        res = []
+                        for p_ in WP.Path(root).glob(text, flags=fl & ~G.MATCHBASE):
+                            sp = str(p_)
+                            # (no os.path.relpath: it would fold a `..` matched by a pattern such as `.*.` into the name `.`)
+                            if sp.startswith(root + '/') and '..' not in sp[len(root) + 1:].split('/'):
+                                res.append(sp[len(root) + 1:])
             except util.HarnessBudget:
                 out.stats['watchdog_skipped'] += 1
                 return
